@@ -15,6 +15,8 @@ LEVEL = "other"
 def run(chk):
     cfgs = ["base", "z"]
     chk.configs = cfgs
+    chk.rule("TAIL.loop", "StripDuplicates / StripNearEqual: every pop_back() of a trailing point sits in a loop whose condition compares the last point with the first - the "
+             "loop exit is the postcondition 'a closed path does not end on its start'")
     chk.rule("RDP.spans", "RDP examines the sub-spans (begin, idx) and (idx, end) exactly when they have an interior vertex (guards interpreted for sub-span lengths "
              "1..4) and hands the recursion exactly those spans")
     chk.rule("MEMBER", "every append to the returned path takes path[i], *it or a local copy of one - never a computed vertex")
@@ -47,6 +49,7 @@ def run(chk):
         e11.rule_pinned_ends(db, chk, cfg)
         e11.rule_trim_last_kept(db, chk, cfg)
         e11.rule_eps_threshold(db, chk, cfg)
+        e11.rule_tail_loop(db, chk, cfg)
         e11.rule_rdp_spans(db, chk, cfg)
         if e11.rule_eps_degree(db, chk, cfg) < 6:
             raise AnalysisBroken("EPS.degree: fewer than 6 tolerance arguments with a derivable degree in configuration %s" % cfg)
